@@ -26,6 +26,13 @@ RULE = ("calendar: every civil day 1900-01-01..2100-12-31 (complete) model vs nu
         "|gmst - IAU-1982| <= 1e-7 rad (50-digit decimal arithmetic), daily advance; aware datetimes (UTC and offsets) also with "
         "the process in non-UTC time zones (TZ + tzset); fresh interpreters running call orders (date-only value first, "
         "instants first, arrays first, coarse units first) with every answer judged against the exact civil JD; "
+        "structured time arrays: 0-d/1-D/2-D/3-D arrays of every datetime64 unit (ns with sub-microsecond digits, us, ms, s, "
+        "m, h, D, W, M, Y) and object arrays (naive, aware, dates) in every shape of variation (random, sorted, reversed, "
+        "shuffled, out-and-back with first == last, constant, one element different, rows/columns with equal ends, "
+        "out-and-back rows, constant rows, constant rows but one element) and memory layout, plus a few arrays of more than "
+        "65536 elements per run (65537 ... 2**20+1, sizes that are no multiple of a power of two, 1-D/2-D/3-D): EVERY element "
+        "screened against an integer-tick reference and confirmed exactly (Fraction / 50-digit decimal), the head, the block "
+        "boundaries and the tail judged exactly in any case; "
         "distinct = instant")
 ASSUMPTIONS = ["UT1 = UTC (as the statement says)",
                "IEEE-754 rounding of the day division and of the GMST polynomial is measured (1e-9 d, 1e-7 rad), not proved",
@@ -178,17 +185,21 @@ def evaluate(val, fns=("jdays", "jdays2000", "gmst")):
 
 def judge(vals, t_true):
     """The absolute clauses of the statement for the instant t_true: list of (function, observed, required)."""
-    ex = exact_jd(t_true)
+    return judge_ex(vals, exact_jd(t_true), t_true.isoformat())
+
+
+def judge_ex(vals, ex, label):
+    """The absolute clauses for the instant whose exact civil Julian date is the Fraction ex (label: its ISO spelling)."""
     bad = []
     for f, v in vals.items():
         if not isinstance(v, float) or math.isnan(v) or math.isinf(v):
-            bad.append((f, v, "a finite value for the instant %s" % t_true.isoformat()))
+            bad.append((f, v, "a finite value for the instant %s" % label))
         elif f == "jdays":
             if abs(Fraction(v) - ex) > Fraction(1, 10 ** 9):
-                bad.append((f, v, "civil JD %r of %s within 1e-9 d" % (float(ex), t_true.isoformat())))
+                bad.append((f, v, "civil JD %r of %s within 1e-9 d" % (float(ex), label)))
         elif f == "jdays2000":
             if abs(Fraction(v) - (ex - 2451545)) > Fraction(1, 10 ** 9):
-                bad.append((f, v, "civil JD - 2451545.0 = %r of %s within 1e-9 d" % (float(ex - 2451545), t_true.isoformat())))
+                bad.append((f, v, "civil JD - 2451545.0 = %r of %s within 1e-9 d" % (float(ex - 2451545), label)))
         elif f == "gmst":
             ref = iau82_gmst(ex)
             dg = abs(decimal.Decimal(v) - ref)
@@ -196,7 +207,7 @@ def judge(vals, t_true):
             if not (0.0 <= v < 2 * math.pi):
                 bad.append((f, v, "[0, 2pi)"))
             elif dg > decimal.Decimal("1e-7"):
-                bad.append((f, v, "IAU-1982 GMST %r of %s within 1e-7 rad" % (float(ref), t_true.isoformat())))
+                bad.append((f, v, "IAU-1982 GMST %r of %s within 1e-7 rad" % (float(ref), label)))
     return bad
 
 
@@ -419,6 +430,8 @@ def oracle(ctx):
             for f, v, req in repr_probe(ctx, t, kind, o, tz):
                 ctx.violation("representation", {"utc": t.isoformat(), "repr": kind, "offset_min": o, "tz": tz, "function": f},
                               v, req + " (process time zone %s)" % tz, site="astronomy." + f)
+    # structured time arrays of every shape, unit and shape of variation; a few arrays of more than 65536 elements
+    array_oracle(ctx)
     # fresh interpreters: the representation that the process converts first must not matter for any later (or that) answer
     for name, order, tz in gen_orders(ctx, inst):
         ctx.bump("call_order", name.split(":")[0])
@@ -465,6 +478,354 @@ def inplace_probe(ctx, t, step_s):
     return "ok"
 
 
+# ---------------------------------------------------------------- structured time arrays (small: every element exactly; large:
+# every element screened against an integer-tick reference, head / block boundaries / tail exactly)
+DAY_NS = 86400 * 10 ** 9
+LO_NS = -2208988800 * 10 ** 9            # 1900-01-01T00:00 in ns since 1970 (own arithmetic: 25567 days before 1970-01-01)
+HI_NS = 4133980800 * 10 ** 9             # 2101-01-01T00:00 (exclusive)
+J2000_NS = 946728000 * 10 ** 9           # 2000-01-01T12:00
+UNIT_NS = {"ns": 1, "us": 10 ** 3, "ms": 10 ** 6, "s": 10 ** 9, "m": 60 * 10 ** 9, "h": 3600 * 10 ** 9, "D": DAY_NS, "W": 7 * DAY_NS}
+ARR_UNITS = ("ns", "ns", "ns", "us", "us", "ms", "s", "m", "h", "D", "W", "M", "Y", "obj", "obj_aware", "obj_date")
+LARGE_UNITS = ("ns", "ns", "ns", "us", "us", "ms", "s", "m", "h", "D")
+FLAT_PATTERNS = ("random", "sorted", "reversed", "shuffled", "out_and_back", "ends_equal_shuffled", "constant", "one_different")
+ROW_PATTERNS = ("rows_equal_ends", "rows_out_and_back", "rows_constant", "rows_constant_but_one", "cols_equal_ends",
+                "rows_equal_ends_same")
+ARR_LAYOUTS = ("C", "C", "F", "T", "strided", "reversed")
+LARGE_SIZES = (65537, 100003, 131073, 262145, 300001, 2 ** 20 + 1, 65536 + 65535, 3 * 65536 + 1, 196613)
+MAX_REPORT = 3
+
+
+def _tick_range(unit):
+    """[lo, hi) of the tick counts of `unit` whose instant (the START of the tick) lies in 1900-01-01 .. 2100-12-31."""
+    if unit == "M":
+        return (1900 - 1970) * 12, (2101 - 1970) * 12
+    if unit == "Y":
+        return 1900 - 1970, 2101 - 1970
+    q = UNIT_NS[unit]
+    return -((-LO_NS) // q), -((-HI_NS) // q)          # ceil(LO/q), ceil(HI/q)
+
+
+def _ticks_to_ns(ticks, unit):
+    """True instants (ns since 1970-01-01, int64) of tick counts: linear units by multiplication, months / years by the
+    civil calendar of Python's datetime (not numpy's)."""
+    if unit in UNIT_NS:
+        return ticks.astype(np.int64) * UNIT_NS[unit]
+    out = np.empty(ticks.shape, dtype=np.int64)
+    fl, of = ticks.reshape(-1), out.reshape(-1)
+    for i, k in enumerate(fl.tolist()):
+        t = dt.datetime(1970 + k // 12, k % 12 + 1, 1) if unit == "M" else dt.datetime(1970 + k, 1, 1)
+        of[i] = us_of(t) * 1000
+    return out
+
+
+def _pattern_ticks(g, shape, pattern, lo, hi, span):
+    """int64 tick counts of the given shape in [lo, hi) varying in the way called `pattern` (g: numpy Generator)."""
+    n_all = int(np.prod(shape)) if shape else 1
+    span = int(max(1, min(span, hi - lo - 1)))
+    base = int(g.integers(lo, hi - span))
+
+    def offs(size):
+        return g.integers(0, span + 1, size=size).astype(np.int64)
+
+    def nonzero(size=None):
+        return g.integers(1, span + 1, size=size).astype(np.int64)
+    if pattern in ROW_PATTERNS and len(shape) >= 2:
+        if pattern == "cols_equal_ends" and len(shape) == 2:
+            return np.ascontiguousarray(_pattern_ticks(g, (shape[1], shape[0]), "rows_equal_ends", lo, hi, span).T)
+        n = shape[-1]
+        rows = n_all // n
+        rbase = g.integers(lo, hi - span, size=(rows, 1)).astype(np.int64)
+        if pattern == "rows_equal_ends_same":
+            rbase = np.full((rows, 1), base, dtype=np.int64)
+        o = offs((rows, n))
+        if pattern in ("rows_constant", "rows_constant_but_one"):
+            o[...] = 0
+            if pattern == "rows_constant_but_one":
+                c = [n // 2, n - 1, 0, int(g.integers(0, n))][int(g.integers(0, 4))]
+                o[int(g.integers(0, rows)), c] = nonzero()
+        else:
+            if pattern == "rows_out_and_back":
+                h = n // 2
+                o[:, :h] = np.sort(o[:, :h], axis=1)
+                o[:, h:] = -np.sort(-o[:, h:], axis=1)
+            o[:, 0] = 0
+            o[:, -1] = 0
+            if n >= 3:
+                o[:, n // 2] = np.maximum(o[:, n // 2], 1)
+        return (rbase + o).reshape(shape)
+    if pattern in ROW_PATTERNS:
+        pattern = "out_and_back"
+    if pattern == "random":
+        flat = g.integers(lo, hi, size=n_all).astype(np.int64)
+    elif pattern == "sorted":
+        flat = base + np.sort(offs(n_all))
+    elif pattern == "reversed":
+        flat = base + np.sort(offs(n_all))[::-1]
+    elif pattern == "shuffled":
+        flat = base + offs(n_all)
+    elif pattern in ("out_and_back", "ends_equal_shuffled"):
+        o = offs(n_all)
+        if pattern == "out_and_back":
+            h = n_all // 2
+            o[:h] = np.sort(o[:h])
+            o[h:] = -np.sort(-o[h:])
+        o[0] = 0
+        o[-1] = 0
+        if n_all >= 3:
+            o[n_all // 2] = max(int(o[n_all // 2]), 1)
+        flat = base + o
+    elif pattern == "constant":
+        flat = np.full(n_all, base, dtype=np.int64)
+    elif pattern == "one_different":
+        flat = np.full(n_all, base, dtype=np.int64)
+        idx = [n_all - 1, 0, n_all // 2, int(g.integers(0, n_all))][int(g.integers(0, 4))]
+        flat[idx] += nonzero()
+    else:
+        raise ValueError("unknown pattern " + str(pattern))
+    return np.ascontiguousarray(flat, dtype=np.int64).reshape(shape)
+
+
+def _arr_layout(x, name, fill):
+    """x with the same shape and values in another memory layout (gaps of strided buffers hold `fill`)."""
+    if x.ndim == 0 or name == "C":
+        return x
+    if name == "F":
+        return np.asfortranarray(x)
+    if name == "T":
+        return np.ascontiguousarray(x.T).T
+    if name == "reversed":
+        return np.ascontiguousarray(x[..., ::-1])[..., ::-1]
+    if name == "strided":
+        big = np.empty(x.shape[:-1] + (2 * x.shape[-1] + 1,), dtype=x.dtype)
+        big[...] = fill
+        view = big[..., 1::2]
+        view[...] = x
+        return view
+    raise ValueError("unknown layout " + str(name))
+
+
+def build_array(spec):
+    """(the time value handed to pyorbital, the true instants as int64 ns since 1970 of the same shape) of an array recipe
+    {seed, shape, unit, pattern, span, layout}: deterministic in the recipe."""
+    g = np.random.default_rng(int(spec["seed"]))
+    shape = tuple(int(x) for x in spec["shape"])
+    unit = spec["unit"]
+    tick_unit = {"obj": "us", "obj_aware": "us", "obj_date": "D"}.get(unit, unit)
+    lo, hi = _tick_range(tick_unit)
+    ticks = _pattern_ticks(g, shape, spec["pattern"], lo, hi, int(spec["span"]))
+    true_ns = _ticks_to_ns(ticks, tick_unit)
+    if unit in ("obj", "obj_aware", "obj_date"):
+        val = np.empty(shape, dtype=object)
+        fl = val.reshape(-1)
+        offs = g.integers(0, len(OFFSETS), size=fl.size)
+        for i, k in enumerate(ticks.reshape(-1).tolist()):
+            if unit == "obj_date":
+                fl[i] = (EPOCH70 + dt.timedelta(days=k)).date()
+            else:
+                t = EPOCH70 + dt.timedelta(microseconds=k)
+                if unit == "obj_aware":
+                    t = t.replace(tzinfo=dt.timezone.utc).astimezone(dt.timezone(dt.timedelta(minutes=OFFSETS[int(offs[i])])))
+                fl[i] = t
+        fill = fl[0]
+    else:
+        val = ticks.astype("datetime64[%s]" % unit)
+        fill = np.datetime64("NaT")
+    layout = spec.get("layout", "C")
+    if layout == "scalar":
+        if shape != ():
+            raise ValueError("scalar layout needs shape ()")
+        val = val[()]
+    else:
+        val = _arr_layout(val, layout, fill)
+    got_ticks = np.asarray(val).astype("datetime64[%s]" % tick_unit).astype(np.int64) if unit not in ("obj", "obj_aware", "obj_date") else None
+    if got_ticks is not None and not (np.shape(val) == shape and np.array_equal(got_ticks, ticks)):
+        raise RuntimeError("array recipe did not produce the intended values")
+    return val, true_ns
+
+
+def exact_jd_ns(ns):
+    """(exact civil Julian date as a Fraction, ISO spelling) of the instant ns nanoseconds after 1970-01-01T00:00 UTC."""
+    us, sub = divmod(int(ns), 1000)
+    t = EPOCH70 + dt.timedelta(microseconds=us)
+    label = t.strftime("%Y-%m-%dT%H:%M:%S") + ".%06d%03d" % (t.microsecond, sub)
+    return exact_jd(t) + Fraction(sub, DAY_NS), label
+
+
+def _call(f, val):
+    from pyorbital import astronomy
+    try:
+        with warnings.catch_warnings():
+            warnings.simplefilter("ignore")          # numpy warns that datetime64 has no time zone (it converts to UTC)
+            return getattr(astronomy, f)(val)
+    except Exception as e:  # noqa
+        return "EXC %s: %s" % (type(e).__name__, str(e)[:200])
+
+
+def _sample_indices(n_all, shape, g):
+    """Flat indices judged exactly whatever the screening says: head, tail, power-of-two block boundaries, row ends, random."""
+    if n_all <= 64:
+        return list(range(n_all))
+    idx = {0, 1, n_all - 1, n_all - 2, n_all - 3, n_all // 2}
+    for blk in (1 << 12, 1 << 16, 1 << 18, 1 << 20):
+        if n_all > blk:
+            last = (n_all // blk) * blk
+            idx |= {blk - 1, blk, last - 1, last, min(last + 1, n_all - 1), (last + n_all) // 2}
+    if len(shape) >= 2:
+        n = shape[-1]
+        idx |= {n - 1, n, n // 2, n_all - n, n_all - n // 2 - 1}
+    idx |= set(int(i) for i in g.integers(0, n_all, size=8))
+    return sorted(i for i in idx if 0 <= i < n_all)
+
+
+def array_probe(spec):
+    """Every clause of the statement for every element of the array built from the recipe `spec`.
+    Returns (violations [(kind, flat index | None, function, observed, required)], number of elements, regime string)."""
+    val, true_ns = build_array(spec)
+    shape = true_ns.shape
+    n_all = int(true_ns.size)
+    tflat = true_ns.reshape(-1)
+    bad = []
+    got = {}
+    for f in ("jdays2000", "jdays", "gmst"):
+        res = _call(f, val)
+        if isinstance(res, str):
+            bad.append(("array_raises", None, f, res, "one value per element of the time array"))
+            continue
+        if np.shape(res) != shape:
+            bad.append(("array_shape", None, f, list(np.shape(res)), "one value per element: shape %s" % list(shape)))
+            continue
+        try:
+            got[f] = np.array(res, dtype=float).reshape(-1)       # a copy, C order of the logical elements
+        except Exception as e:  # noqa
+            bad.append(("array_raises", None, f, "result not numeric: %s" % e, "one float per element of the time array"))
+    # screening of every element: signed errors against integer-tick arithmetic (good to ~1e-15 d / 1e-10 rad)
+    d = tflat - J2000_NS
+    days = d // DAY_NS
+    frac = (d - days * DAY_NS) / float(DAY_NS)
+    cand = {}
+    with np.errstate(all="ignore"):
+        err = {}
+        if "jdays2000" in got:
+            err["jdays2000"] = (got["jdays2000"] - days) - frac
+        if "jdays" in got:
+            err["jdays"] = (got["jdays"] - (days + 2451545)) - frac
+        for f, e in err.items():
+            cand[f] = np.nonzero(~(np.abs(e) <= 1e-9 * (1 - 1e-6)))[0]
+        if "gmst" in got:
+            tt = (days + frac) / 36525.0
+            th = 67310.54841 + (876600.0 * 3600.0 + 8640184.812866) * tt + 0.093104 * tt * tt - 6.2e-6 * tt * tt * tt
+            ref = np.deg2rad(th / 240.0) % (2 * np.pi)
+            dg = np.abs(got["gmst"] - ref)
+            dg = np.minimum(dg, 2 * np.pi - dg)
+            g_ = got["gmst"]
+            cand["gmst"] = np.nonzero(~((dg <= 1e-7 - 1e-9) & (g_ >= 0.0) & (g_ < 2 * np.pi)))[0]
+    g = np.random.default_rng(int(spec["seed"]) + 1)
+    sample = _sample_indices(n_all, shape, g)
+    for f in ("jdays2000", "jdays", "gmst"):
+        if f not in got:
+            continue
+        c = cand.get(f, np.zeros(0, dtype=int))
+        todo = sorted(set(sample) | set(int(i) for i in c[:4]) | set(int(i) for i in c[-4:]))
+        nrep = 0
+        for i in todo:
+            ex, label = exact_jd_ns(int(tflat[i]))
+            for ff, v, req in judge_ex({f: float(got[f][i])}, ex, label):
+                if nrep < MAX_REPORT:
+                    bad.append(("array_element", i, f, v, req + " (element %s of %d, %d candidate(s) in the array)" % (
+                        list(int(x) for x in np.unravel_index(i, shape)) if shape else [], n_all, len(c))))
+                nrep += 1
+    # differences of day counts equal elapsed time: neighbours in C order, and first vs last (2e-9 = twice the 1e-9 of each)
+    if "jdays2000" in got and n_all >= 2:
+        e = err["jdays2000"]
+        with np.errstate(all="ignore"):
+            de = np.abs(np.diff(e))
+        worst = int(np.argmax(np.where(np.isnan(de), np.inf, de)))
+        for i, j in ((worst, worst + 1), (0, n_all - 1)):
+            a, la = exact_jd_ns(int(tflat[i]))
+            b, lb = exact_jd_ns(int(tflat[j]))
+            vi, vj = float(got["jdays2000"][i]), float(got["jdays2000"][j])
+            if math.isnan(vi) or math.isnan(vj) or math.isinf(vi) or math.isinf(vj):
+                continue                                      # reported above as a non-finite element
+            dj = Fraction(vj) - Fraction(vi)
+            if abs(dj - (b - a)) > Fraction(2, 10 ** 9):
+                bad.append(("array_elapsed", i, "jdays2000", float(dj), "elapsed time %r d between %s (element %d) and %s (element %d) "
+                            "within 2e-9 d" % (float(b - a), la, i, lb, j)))
+                break
+    # daily advance of GMST, element by element (instants whose next day still lies before 2101)
+    if "gmst" in got:
+        nxt = (true_ns + DAY_NS).astype("datetime64[ns]")
+        res = _call("gmst", nxt)
+        ok = (tflat + DAY_NS) < HI_NS
+        if not isinstance(res, str) and np.shape(res) == shape and ok.any():
+            with np.errstate(all="ignore"):
+                adv = (np.array(res, dtype=float).reshape(-1) - got["gmst"]) % (2 * np.pi)
+                want = (2 * math.pi * 1.00273790935) % (2 * math.pi)
+                dd = np.abs(adv - want)
+                dd = np.minimum(dd, 2 * np.pi - dd)
+            w = np.nonzero(ok & ~(dd <= 1e-7))[0]
+            if len(w):
+                i = int(w[-1])
+                bad.append(("array_gmst_rate", i, "gmst", float(adv[i]), "2pi*1.00273790935 mod 2pi = %r within 1e-7 rad per day at "
+                            "%s (element %d of %d, %d such element(s))" % (want, exact_jd_ns(int(tflat[i]))[1], i, n_all, len(w))))
+    return bad, n_all
+
+
+def gen_array_spec(ctx, large):
+    r = ctx.rng
+    if large:
+        unit = r.choice(LARGE_UNITS)
+        target = r.choice(LARGE_SIZES + (r.randrange(65537, 400000), r.randrange(65537, 140000), 2 * 65536))
+        ndim = r.choice([1, 1, 2, 2, 3])
+        if ndim == 1:
+            shape = [target]
+        elif ndim == 2:
+            m = r.choice([2, 3, 5, 7, 16, r.randrange(2, 64)])
+            shape = [m, -(-target // m)]
+            if r.random() < 0.3:
+                shape = shape[::-1]
+        else:
+            a, b = r.randrange(2, 6), r.randrange(2, 9)
+            shape = [a, b, -(-target // (a * b))]
+    else:
+        unit = r.choice(ARR_UNITS)
+        ndim = r.choice([0, 1, 1, 2, 2, 2, 3])
+        if ndim == 0:
+            shape = []
+        elif ndim == 1:
+            shape = [r.choice([1, 2, 3, r.randrange(2, 40)])]
+        elif ndim == 2:
+            shape = [r.randrange(1, 7), r.choice([2, 3, 4, 5, r.randrange(2, 12)])]
+        else:
+            shape = [r.randrange(1, 4), r.randrange(1, 5), r.randrange(2, 7)]
+    tick_unit = {"obj": "us", "obj_aware": "us", "obj_date": "D"}.get(unit, unit)
+    lo, hi = _tick_range(tick_unit)
+    span = max(1, int(10 ** r.uniform(0, math.log10(hi - lo))))
+    if len(shape) >= 2 and r.random() < 0.55:
+        pattern = r.choice(ROW_PATTERNS)
+    else:
+        pattern = r.choice(FLAT_PATTERNS)
+    layout = r.choice(ARR_LAYOUTS) if shape else r.choice(["C", "scalar"])
+    if unit.startswith("obj") and not shape:
+        layout = "C"
+    return {"seed": r.randrange(2 ** 31), "shape": shape, "unit": unit, "pattern": pattern, "span": span, "layout": layout}
+
+
+def array_oracle(ctx):
+    """Structured small arrays (every element exactly) and a few arrays of more than 65536 elements per run."""
+    plan = [False] * ctx.size(500, 12000) + [True] * ctx.size(6, 60)
+    if ctx.intensified:
+        plan += [False] * 500 + [True] * 6
+    for large in plan:
+        spec = gen_array_spec(ctx, large)
+        bad, n_all = array_probe(spec)
+        ctx.count("eval_oracle_array_elements", 3 * n_all)
+        ctx.bump("array_pattern", spec["pattern"])
+        ctx.bump("array_unit", spec["unit"])
+        ctx.bump("array_shape", "%d-D %s" % (len(spec["shape"]), "large" if large else "small"))
+        for kind, i, f, obs, req in bad[:MAX_REPORT]:
+            ctx.violation(kind, {"array": spec, "index": i, "function": f}, obs, req, site="astronomy." + f)
+
+
 def match_known(entry, v):
     return False
 
@@ -472,6 +833,12 @@ def match_known(entry, v):
 def replay(ctx, case):
     from pyorbital import astronomy
     inp = case.get("input", case)
+    if "array" in inp:
+        bad, n_all = array_probe(inp["array"])
+        print("array recipe", inp["array"], "(%d elements)" % n_all)
+        for b in bad[:6]:
+            print("array: %s element %s %s -> %r, required %s" % b)
+        return 1 if bad else 0
     if "order" in inp:
         bad = judge_order(inp["order"], inp.get("tz"))
         for b in bad[:6]:
